@@ -393,4 +393,245 @@ theorem runKid_spec [DecidableEq ρ] (S : Sem ρ) : ∀ (fuel : Nat) (vals : Lis
               rw [keyP_sound S f _ kids3 _ ret hkk, r1] at hev
               exact hin f v hev
 
+/-! ## the edits of the harness fabricate no cache entry -/
+
+theorem valid_mapKidC (S : Sem ρ) (l : Nat) (f : TC ρ → TC ρ) (hf : ∀ t, ValidT S t → ValidT S (f t)) :
+    ∀ (kids : Kids ρ), ValidKids S kids → ValidKids S (mapKidC l f kids)
+  | [], _ => by simp [mapKidC, ValidKids]
+  | (k, t) :: r, hv => by
+    simp only [ValidKids, ValidPair] at hv
+    by_cases hk : k = l
+    · simp [mapKidC, hk, ValidKids, ValidPair, hf t hv.1, hv.2]
+    · simp [mapKidC, hk, ValidKids, ValidPair, hv.1, valid_mapKidC S l f hf r hv.2]
+
+theorem lookupC_mapKidC (l : Nat) (f : TC ρ → TC ρ) (l2 : Nat) : ∀ (kids : Kids ρ),
+    lookupC l2 (mapKidC l f kids) = if l2 = l then (lookupC l2 kids).map f else lookupC l2 kids
+  | [] => by simp [mapKidC, lookupC]
+  | (k, t) :: r => by
+    have ih := lookupC_mapKidC l f l2 r
+    by_cases hk : k = l
+    · subst hk
+      by_cases h2 : l2 = k
+      · subst h2; simp [mapKidC, lookupC]
+      · have : ¬ k = l2 := fun e => h2 e.symm
+        simp [mapKidC, lookupC, h2, this]
+    · by_cases h2 : l2 = l
+      · subst h2
+        simp [mapKidC, lookupC, hk, ih]
+      · by_cases h3 : k = l2 <;> simp [mapKidC, lookupC, hk, h3, h2, ih]
+
+theorem outAt_mapKidC (S : Sem ρ) (l : Nat) (f : TC ρ → TC ρ) (hf : ∀ t, (f t).out = t.out) (l2 : Nat)
+    (kids : Kids ρ) : outAt S l2 (mapKidC l f kids) = outAt S l2 kids := by
+  unfold outAt
+  rw [lookupC_mapKidC]
+  by_cases h2 : l2 = l
+  · simp only [h2, if_true]
+    cases lookupC l kids with
+    | none => rfl
+    | some t => simp [hf t]
+  · simp [h2]
+
+theorem valid_removeKidC (S : Sem ρ) (l : Nat) : ∀ (kids : Kids ρ), ValidKids S kids → ValidKids S (removeKidC l kids)
+  | [], _ => by simp [removeKidC, ValidKids]
+  | (k, t) :: r, hv => by
+    simp only [ValidKids, ValidPair] at hv
+    by_cases hk : k = l
+    · simp [removeKidC, hk, hv.2]
+    · simp [removeKidC, hk, ValidKids, ValidPair, hv.1, valid_removeKidC S l r hv.2]
+
+theorem valid_append (S : Sem ρ) : ∀ (k1 k2 : Kids ρ), ValidKids S k1 → ValidKids S k2 → ValidKids S (k1 ++ k2)
+  | [], _, _, h2 => by simpa using h2
+  | p :: r, k2, h1, h2 => by
+    simp only [ValidKids] at h1
+    simp [ValidKids, h1.1, valid_append S r k2 h1.2 h2]
+
+theorem valid_setIn (S : Sem ρ) (i : Nat) (s : Src) (t : TC ρ) (h : ValidT S t) : ValidT S (t.setIn i s) := by
+  cases t <;> simpa [TC.setIn, ValidT] using h
+
+theorem valid_inBody (S : Sem ρ) (clear : Bool) (g : Kids ρ → Kids ρ) (hg : ∀ kids, ValidKids S kids → ValidKids S (g kids))
+    (t : TC ρ) (h : ValidT S t) : ValidT S (t.inBody clear g) := by
+  cases t with
+  | leaf => simpa [TC.inBody] using h
+  | comp ret ins kids out cache =>
+    simp only [TC.inBody, ValidT] at h ⊢
+    refine ⟨hg kids h.1, ?_⟩
+    intro vs k hc
+    cases clear <;> simp at hc
+    exact h.2 vs k hc
+
+/-- any body edit that fabricates no entry, applied at any depth, fabricates none -/
+theorem valid_atPathC (S : Sem ρ) (clear : Bool) (g : Kids ρ → Kids ρ)
+    (hg : ∀ kids, ValidKids S kids → ValidKids S (g kids)) :
+    ∀ (p : List Nat) (kids : Kids ρ), ValidKids S kids → ValidKids S (atPathC clear g p kids)
+  | [], kids, hv => hg kids hv
+  | l :: p, kids, hv =>
+    valid_mapKidC S l _ (fun t ht => valid_inBody S _ _ (valid_atPathC S clear g hg p) t ht) kids hv
+
+theorem out_inBody (clear : Bool) (g : Kids ρ → Kids ρ) (t : TC ρ) : (t.inBody clear g).out = t.out := by
+  cases t <;> simp [TC.inBody, TC.out]
+
+theorem harmless_setIn (S : Sem ρ) (l i : Nat) (s : Src) (kids : Kids ρ) (hv : ValidKids S kids) :
+    ValidKids S (mapKidC l (TC.setIn i s) kids) :=
+  valid_mapKidC S l _ (fun t ht => valid_setIn S i s t ht) kids hv
+
+theorem harmless_add (S : Sem ρ) (l cls : Nat) (ins : List Src) (kids : Kids ρ) (hv : ValidKids S kids) :
+    ValidKids S (kids ++ [(l, freshLeaf S cls ins)]) :=
+  valid_append S kids _ hv (by simp [ValidKids, ValidPair, ValidT, freshLeaf])
+
+theorem harmless_replace (S : Sem ρ) (l cls : Nat) (ins : List Src) (kids : Kids ρ) (hv : ValidKids S kids) :
+    ValidKids S (removeKidC l kids ++ [(l, freshLeaf S cls ins)]) :=
+  harmless_add S l cls ins _ (valid_removeKidC S l kids hv)
+
+/-! ## the outermost composite under histories -/
+
+def ValidRoot (S : Sem ρ) (r : Root ρ) : Prop :=
+  ValidKids S r.kids ∧
+  ∀ k, r.cache = some k → ∀ (kids3 : List (Nat × T)) (f l : Nat) (v : ρ),
+    key KCfg.proposed kids3 = k → evalP S f [] kids3 l = some v → outAt S l r.kids = v
+
+/-- every output the root shows is what the cache-free twin computes on the same graph, whenever that delivers -/
+def AgreeRoot (S : Sem ρ) (r : Root ρ) : Prop :=
+  ∀ f' l v', evalP S f' [] (stripKids r.kids) l = some v' → outAt S l r.kids = v'
+
+/-- an edit below the root: it fabricates no cache entry and leaves the outputs of the root's children alone
+(set a free input, rewire, and anything inside a nested composite) -/
+def Conservative (S : Sem ρ) (g : Kids ρ → Kids ρ) : Prop :=
+  ∀ kids, ValidKids S kids → ValidKids S (g kids) ∧ ∀ l, outAt S l (g kids) = outAt S l kids
+
+/-- an edit through the root's own add/remove/replace_child: it fabricates no cache entry -/
+def Harmless (S : Sem ρ) (g : Kids ρ → Kids ρ) : Prop :=
+  ∀ kids, ValidKids S kids → ValidKids S (g kids)
+
+def OpOk (S : Sem ρ) : Op ρ → Prop
+  | .edit g => Conservative S g
+  | .structural g => Harmless S g
+  | .run => True
+
+theorem stepC_spec [DecidableEq ρ] (S : Sem ρ) (fuel : Nat) (r r' : Root ρ) (op : Op ρ)
+    (res : Option (List (Nat × ρ))) (hv : ValidRoot S r) (hop : OpOk S op)
+    (h : stepC S KCfg.proposed fuel r op = some (r', res)) :
+    ValidRoot S r' ∧ (op = .run → res = some r'.outs ∧ AgreeRoot S r' ∧ stripKids r'.kids = stripKids r.kids) := by
+  cases op with
+  | edit g =>
+    simp [stepC] at h
+    obtain ⟨rfl, rfl⟩ := h
+    obtain ⟨c1, c2⟩ := hop r.kids hv.1
+    refine ⟨⟨c1, ?_⟩, by simp⟩
+    intro k hk kids3 f l v hkey hev
+    simp only at hk ⊢
+    rw [c2 l]
+    exact hv.2 k hk kids3 f l v hkey hev
+  | structural g =>
+    simp [stepC] at h
+    obtain ⟨rfl, rfl⟩ := h
+    exact ⟨⟨hop r.kids hv.1, by simp⟩, by simp⟩
+  | run =>
+    simp only [stepC] at h
+    by_cases hh : r.hit KCfg.proposed = true
+    · simp [hh] at h
+      obtain ⟨rfl, rfl⟩ := h
+      refine ⟨hv, fun _ => ⟨rfl, ?_, rfl⟩⟩
+      unfold Root.hit at hh
+      cases hc : r.cache with
+      | none => simp [hc] at hh
+      | some k =>
+        simp only [hc] at hh
+        have hk := K.beq_sound _ _ hh
+        intro f' l v' he
+        exact hv.2 k hc (stripKids r.kids) f' l v' hk.symm he
+    · simp only [hh, Bool.false_eq_true, if_false] at h
+      cases hr : runAllL (fun k s => runKid S KCfg.proposed fuel [] k s) r.kids (labels r.kids) with
+      | none => simp [hr] at h
+      | some k1 =>
+        simp only [hr, Option.some.injEq, Prod.mk.injEq] at h
+        obtain ⟨rfl, rfl⟩ := h
+        obtain ⟨r1, r2, r3, _⟩ := runAllL_spec S [] _ (runKid_spec S fuel []) (labels r.kids) r.kids k1 hv.1 hr
+        have hag : AgreeRoot S { kids := k1, cache := some (key KCfg.proposed (stripKids k1)) } := by
+          intro f' l v' he
+          simp only at he ⊢
+          rw [r1] at he
+          cases hl : lookupC l k1 with
+          | none =>
+            have : lookup l (stripKids r.kids) = none := by rw [← r1, lookup_strip, hl]; rfl
+            cases f' with
+            | zero => simp [evalP] at he
+            | succ f' => simp [evalP, this] at he; simp [outAt, hl, he]
+          | some tr =>
+            have hm := mem_labels_of_lookupC l k1 tr hl
+            rw [labels_strip k1 r.kids r1] at hm
+            exact (r3 l hm f' v' he).symm
+        refine ⟨⟨r2, ?_⟩, fun _ => ⟨rfl, hag, r1⟩⟩
+        intro k hk kids3 f l v hkey hev
+        simp only [Option.some.injEq] at hk
+        subst hk
+        have hkk : keyKids KCfg.proposed kids3 = keyKids KCfg.proposed (stripKids k1) := by
+          simp only [key, K.mk.injEq] at hkey
+          exact Prod.ext hkey.1 hkey.2
+        rw [keyP_sound S f [] kids3 _ l hkk] at hev
+        exact hag f l v hev
+
+/-- apply a history; `none` = some run ran out of fuel -/
+def runOpsC [DecidableEq ρ] (S : Sem ρ) (c : KCfg) (fuel : Nat) (r : Root ρ) : List (Op ρ) → Option (Root ρ × List (Root ρ))
+  | [] => some (r, [])
+  | o :: os =>
+    match stepC S c fuel r o with
+    | none => none
+    | some (r1, res) =>
+      match runOpsC S c fuel r1 os with
+      | none => none
+      | some (r2, seen) => some (r2, match o, res with | .run, some _ => r1 :: seen | _, _ => seen)
+
+/-- TRANSPARENCY OF THE WHOLE TREE OF CACHES: along every history of conservative edits, structural edits and
+runs, after every run every output of the root agrees with the cache-free evaluation of the graph as it then is -/
+theorem runOpsC_spec [DecidableEq ρ] (S : Sem ρ) (fuel : Nat) : ∀ (ops : List (Op ρ)) (r r' : Root ρ)
+    (seen : List (Root ρ)), ValidRoot S r → (∀ o ∈ ops, OpOk S o) →
+    runOpsC S KCfg.proposed fuel r ops = some (r', seen) → ValidRoot S r' ∧ ∀ x ∈ seen, AgreeRoot S x
+  | [], r, r', seen, hv, _, h => by
+    simp [runOpsC] at h
+    obtain ⟨rfl, rfl⟩ := h
+    exact ⟨hv, by simp⟩
+  | o :: os, r, r', seen, hv, hok, h => by
+    simp only [runOpsC] at h
+    cases hs : stepC S KCfg.proposed fuel r o with
+    | none => simp [hs] at h
+    | some p =>
+      obtain ⟨r1, res⟩ := p
+      simp only [hs] at h
+      cases hr : runOpsC S KCfg.proposed fuel r1 os with
+      | none => simp [hr] at h
+      | some q =>
+        obtain ⟨r2, seen2⟩ := q
+        simp only [hr, Option.some.injEq, Prod.mk.injEq] at h
+        obtain ⟨rfl, rfl⟩ := h
+        obtain ⟨s1, s2⟩ := stepC_spec S fuel r r1 o res hv (hok o (by simp)) hs
+        obtain ⟨i1, i2⟩ := runOpsC_spec S fuel os r1 r2 seen2 s1 (fun o' ho' => hok o' (by simp [ho'])) hr
+        refine ⟨i1, ?_⟩
+        intro x hx
+        cases o with
+        | run =>
+          cases res with
+          | none => exact i2 x hx
+          | some _ =>
+            simp only [List.mem_cons] at hx
+            rcases hx with rfl | hx
+            · exact (s2 rfl).2.1
+            · exact i2 x hx
+        | edit g => exact i2 x hx
+        | structural g => exact i2 x hx
+
+/-- … and below the root's children it leaves the outputs of the root's children alone -/
+theorem conservative_atPathC (S : Sem ρ) (clear : Bool) (g : Kids ρ → Kids ρ)
+    (hg : ∀ kids, ValidKids S kids → ValidKids S (g kids)) (l : Nat) (p : List Nat) :
+    Conservative S (atPathC clear g (l :: p)) := by
+  intro kids hv
+  exact ⟨valid_atPathC S clear g hg (l :: p) kids hv,
+    fun l2 => outAt_mapKidC S l _ (fun t => out_inBody _ _ t) l2 kids⟩
+
+/-- assigning / rewiring an input of a child of the root -/
+theorem conservative_setIn (S : Sem ρ) (l i : Nat) (s : Src) : Conservative S (mapKidC l (TC.setIn i s)) := by
+  intro kids hv
+  refine ⟨valid_mapKidC S l _ (fun t ht => valid_setIn S i s t ht) kids hv,
+    fun l2 => outAt_mapKidC S l _ (fun t => by cases t <;> rfl) l2 kids⟩
+
+
 end PwVerif.CacheForest
